@@ -1,41 +1,24 @@
 //! Verification harness for encoding_rs: calls the real crate in-process,
 //! prints operation lines (`op args => implementation result`) for the Lean
-//! model driver and `ORACLE-FAIL <prop> …` lines for property-level oracle
-//! failures found on the implementation itself.
+//! model driver and `ORACLE-FAIL <prop> <op lhs> :: <detail>` lines for
+//! property-level oracle failures found on the implementation itself.
 //!
 //! usage: verif_harness ops <property> <quick|thorough> <seed> <ops-file>
-//!        verif_harness replay <ops-file-with-lines>   (re-executes op lines)
+//!        verif_harness replay <file-with-op-lines>   (re-executes op lines)
+//!
+//! Each module exposes
+//!   pub fn generate(prop: &str, out: &mut Out, thorough: bool, seed: u64) -> bool   (true if it serves `prop`)
+//!   pub fn replay(toks: &[&str], out: &mut Out) -> bool                             (true if it knows the op)
 mod label;
 mod util;
 
 use std::io::Write;
 use util::*;
 
-fn generate(prop: &str, thorough: bool, seed: u64, out: &mut Out) {
-    match prop {
-        "C13" => label::generate(out, thorough, seed),
-        _ => {
-            eprintln!("unknown property {}", prop);
-            std::process::exit(2);
-        }
-    }
-}
+type GenFn = fn(&str, &mut Out, bool, u64) -> bool;
+type ReplayFn = fn(&[&str], &mut Out) -> bool;
 
-/// Re-execute one op line (its left-hand side) on the implementation.
-fn replay_line(line: &str, out: &mut Out) {
-    let lhs = line.split(" => ").next().unwrap();
-    let toks: Vec<&str> = lhs.split(' ').collect();
-    match toks[0] {
-        "label" => {
-            let labels = label::load_spec_labels();
-            let map = labels.iter().cloned().collect();
-            label::one(out, &map, &unhex(toks[1]));
-        }
-        _ => {
-            eprintln!("cannot replay: {}", line);
-        }
-    }
-}
+const MODULES: &[(GenFn, ReplayFn)] = &[(label::generate, label::replay)];
 
 fn main() {
     // keep panic messages of caught panics off stderr
@@ -51,7 +34,14 @@ fn main() {
             let prop = &args[2];
             let thorough = args[3] == "thorough";
             let seed: u64 = args[4].parse().unwrap_or(0);
-            generate(prop, thorough, seed, &mut out);
+            let mut served = false;
+            for (g, _) in MODULES {
+                served |= g(prop, &mut out, thorough, seed);
+            }
+            if !served {
+                eprintln!("unknown property {}", prop);
+                std::process::exit(2);
+            }
             let mut f = std::io::BufWriter::new(std::fs::File::create(&args[5]).unwrap());
             for l in &out.ops {
                 writeln!(f, "{}", l).unwrap();
@@ -63,7 +53,18 @@ fn main() {
                 if line.is_empty() || line.starts_with('#') {
                     continue;
                 }
-                replay_line(line, &mut out);
+                let lhs = line.split(" => ").next().unwrap();
+                let toks: Vec<&str> = lhs.split(' ').collect();
+                let mut known = false;
+                for (_, r) in MODULES {
+                    if r(&toks, &mut out) {
+                        known = true;
+                        break;
+                    }
+                }
+                if !known {
+                    eprintln!("cannot replay: {}", line);
+                }
             }
             for l in &out.ops {
                 println!("{}", l);
@@ -77,5 +78,10 @@ fn main() {
     for l in &out.oracle_fail {
         println!("{}", l);
     }
-    println!("HARNESS-STAT ops={} oracle_evals={} oracle_fails={}", out.ops.len(), out.oracle_evals, out.oracle_fail.len());
+    println!(
+        "HARNESS-STAT ops={} oracle_evals={} oracle_fails={}",
+        out.ops.len(),
+        out.oracle_evals,
+        out.oracle_fail.len()
+    );
 }
